@@ -234,6 +234,11 @@ def pair_sequence(pi: int, swap: bool, warm: int, stores: bool, e1: bool, e2: bo
     steps = [(first, e1, False), (second, e2, False)] + ([(first, e1, False), (second, not e2, False)] if repeat else [])
     with hlib.native():
         _CACHE.stores = True
+        for _p in (_CACHED, _PLAIN):          # every path starts after one successful call on both parsers
+            try:
+                _p.parse("0")
+            except Exception:
+                pass
         _CACHE.clear()
         _CACHE.update(_INITIAL)          # the host's mapping as the constructor left it
         for t in ([second] if warm == 1 else [first, second] if warm == 2 else []):          # pre-warmed entries
